@@ -1735,6 +1735,117 @@ add('c09-benign-import-kwargs-in-a-dict', 'C09', 'benign', [(EXCEL, """         
                 cell = Cell(k, v, **kw)
             except ValueError:""")])
 
+# ---------------------------------------------------------------- round-4 rules
+OPERATOR = 'formulas/tokens/operator.py'
+add('c11-dec2x-places-rebound-for-negatives', 'C11', 'break', [(ENG, """        if x < 0:
+            x += y << 1""", """        if x < 0:
+            x, places = x + (y << 1), None""")], expect='C11.errkeep.unused')
+add('c19-vlookup-index-checked-before-transpose', 'C19', 'break', [(LOOK, """    vec = np.matrix(vec)
+    if transpose:
+        vec = vec.T""", """    vec = np.matrix(vec)
+    if index >= len(vec):
+        raise FoundError(err=Error.errors['#REF!'])
+    if transpose:
+        vec = vec.T""")], expect='C19.guard')
+add('c19-benign-index-checked-after-transpose', 'C19', 'benign', [(LOOK, """    if transpose:
+        vec = vec.T
+    try:""", """    if transpose:
+        vec = vec.T
+    if index >= len(vec):
+        raise FoundError(err=Error.errors['#REF!'])
+    try:""")])
+add('c14-failed-workbooks-remembered', 'C14', 'break', [(EXCEL, """        stack = sorted(stack)
+        sheet_limits = {}""", """        stack = sorted(stack)
+        sheet_limits, unavailable = {}, set()"""), (EXCEL, """            try:
+                context = self.add_book(book)[1]
+                wk, context = self.add_sheet(rng['sheet'], context)
+            except Exception as ex:  # Missing excel file or sheet.
+                log.warning('Error in loading `{}`:\\n{}'.format(n_id, ex))
+                Cell(n_id, '=#REF!').compile().add(self.dsp)
+                self.books.pop(book, None)
+                continue""", """            if book in unavailable:
+                Cell(n_id, '=#REF!').compile().add(self.dsp)
+                continue
+            try:
+                context = self.add_book(book)[1]
+                wk, context = self.add_sheet(rng['sheet'], context)
+            except Exception as ex:  # Missing excel file or sheet.
+                log.warning('Error in loading `{}`:\\n{}'.format(n_id, ex))
+                Cell(n_id, '=#REF!').compile().add(self.dsp)
+                self.books.pop(book, None)
+                unavailable.add(book)
+                continue""")], expect='C14.carry')
+add('c14-load-errors-narrowed-through-a-tuple', 'C14', 'break', [(EXCEL, """        stack = sorted(stack)
+        sheet_limits = {}""", """        stack = sorted(stack)
+        sheet_limits = {}
+        load_errors = OSError, KeyError"""), (EXCEL, """            except Exception as ex:  # Missing excel file or sheet.""", """            except load_errors as ex:  # Missing excel file or sheet.""")], expect='C14.ref')
+add('c14-benign-broad-handler-through-a-tuple', 'C14', 'benign', [(EXCEL, """        stack = sorted(stack)
+        sheet_limits = {}""", """        stack = sorted(stack)
+        sheet_limits = {}
+        load_errors = OSError, Exception"""), (EXCEL, """            except Exception as ex:  # Missing excel file or sheet.""", """            except load_errors as ex:  # Missing excel file or sheet.""")])
+add('c10-check-cycles-answers-from-the-cut-map', 'C10', 'break', [(EXCEL, """    node, mod = nodes[node_id], {} if mod is None else mod
+""", """    node, mod = nodes[node_id], {} if mod is None else mod
+    if node_id in mod:
+        return tuple(mod[node_id])
+""")], expect='C10.accum')
+_LINKS = [(EXCEL, """            data['external_links'] = {
+                str(i + 1): osp.split(osp.relpath(osp.realpath(osp.join(
+                    fdir, _decode_path(el.file_link.Target)
+                )), self.basedir))
+                for i, el in enumerate(book._external_links)
+                if el.file_link.Target.endswith('.xlsx')
+            }
+            data['external_links'] = {
+                k: (_encode_path(d), f)
+                for k, (d, f) in data['external_links'].items()
+            }""", """            data['external_links'] = links = {}
+            for el in book._external_links:
+                target = el.file_link.Target
+                if target.endswith('.xlsx'):
+                    d, f = osp.split(osp.relpath(osp.realpath(
+                        osp.join(fdir, _decode_path(target))
+                    ), self.basedir))
+                    links[str(len(links) + 1)] = _encode_path(d), f""")]
+add('c04-links-numbered-by-table-size', 'C04', 'break', _LINKS, expect='C04.extlink')
+add('c03-links-numbered-by-table-size', 'C03', 'break', _LINKS, expect='C03.extlink')
+add('c07-inverse-assembler-cells-before-blocks', 'C07', 'break', [(CELL, """        for d in self.assembler.outputs.values():""", """        for d in sorted(self.assembler.outputs.values(),
+                        key=lambda d: not isinstance(d, tuple)):""")], expect='C07.pair')
+add('c04-r1c1-corners-ordered-as-text', 'C04', 'break', [(OPERAND, """def fast_range2parts_v4(r1, n1, r2, n2, sheet_id):
+""", """def fast_range2parts_v4(r1, n1, r2, n2, sheet_id):
+    if n1 > n2:
+        n1, n2 = n2, n1
+""")], expect='C04.fast')
+add('c04-benign-a1-corners-put-in-order', 'C04', 'benign', [(OPERAND, """def fast_range2parts_v2(r1, c1, r2, c2, sheet_id):
+    ref = _build_ref(c1, r1, c2, r2).upper()
+    return {
+        'r1': r1, 'r2': r2, 'c1': c1, 'c2': c2, 'n1': _col2index(c1),
+        'n2': _col2index(c2), 'ref': ref, 'name': _build_id(ref, sheet_id)
+    }""", """def fast_range2parts_v2(r1, c1, r2, c2, sheet_id):
+    n1, n2 = _col2index(c1), _col2index(c2)
+    if n1 > n2:
+        c1, c2, n1, n2 = c2, c1, n2, n1
+    ref = _build_ref(c1, r1, c2, r2).upper()
+    return {
+        'r1': r1, 'r2': r2, 'c1': c1, 'c2': c2, 'n1': n1, 'n2': n2, 'ref': ref,
+        'name': _build_id(ref, sheet_id)
+    }""")], may_error=True)
+add('c01-rank-copied-before-the-sign-is-renamed', 'C01', 'break', [(OPERATOR, """        self.update_name(tokens, stack)
+        pred = self.pred
+        while stack and isinstance(stack[-1], Operator):
+            if pred > stack[-1].pred:""", """        pred = self.attr['pred'] = self.pred
+        self.update_name(tokens, stack)
+        while stack and isinstance(stack[-1], Operator):
+            if pred > stack[-1].attr['pred']:""")], expect='C01.predsnap')
+add('c15-sheet-extent-cache-keyed-by-title-get-idiom', 'C15', 'break', [(EXCEL, """            if wk not in sheet_limits:
+                sheet_limits[wk] = wk.max_row, wk.max_column
+            max_row, max_column = sheet_limits[wk]""", """            limits = sheet_limits.get(rng['sheet'])
+            if limits is None:
+                limits = sheet_limits[rng['sheet']] = wk.max_row, wk.max_column
+            max_row, max_column = limits""")], expect='C15.cachekey')
+add('c15-benign-sheet-extent-cache-removed', 'C15', 'benign', [(EXCEL, """            if wk not in sheet_limits:
+                sheet_limits[wk] = wk.max_row, wk.max_column
+            max_row, max_column = sheet_limits[wk]""", """            max_row, max_column = wk.max_row, wk.max_column""")])
+
 if __name__ == '__main__':
     here = os.path.dirname(os.path.abspath(__file__))
     ids = [v['id'] for v in V]
